@@ -15,7 +15,7 @@ functions registered by the host return into objects the host owns.
 import re
 
 from ..ir import walk, children, strip_targs, AnalysisBroken
-from ..flow import FnFlow, strip_casts, expr_str
+from ..flow import FnFlow, strip_casts, expr_str, atomic_facts
 from . import _nonowning as no
 
 SCOPED = ("automatic", "catch", "handle-owned", "loop-element:handle-owned", "loop-element:automatic")
@@ -263,6 +263,66 @@ def run(chk):
               "a non-owning reference box carries the is-a-temporary mark: `var x = <this result>` adopts the reference instead of copying the object, and x dangles "
               "when the object's owner is destroyed (a `T &` result, which is not marked, is copied by the same declaration)")
     r9.require(5, "marked constructions")
+
+    # ------------------------------------------------------------------ R11.10
+    r10 = chk.rule("R11.10", "pending conversion temporaries are dropped only by take_saves (whose result goes onto a saved-argument list) or by the guard object that enabled the saves itself",
+                   "a converted temporary bound to a parameter of a running C++ function is not destroyed by a nested callback wrapper returning")
+    SAVES_Q = "chaiscript::Type_Conversions::Conversion_Saves::saves"
+    SHRINK = {"clear", "erase", "pop_back", "resize", "assign", "swap", "shrink_to_fit", "operator="}
+    nsites = 0
+    seen10 = set()
+    for f in prog.fns:
+        if f["tk"] == "pattern" or not f["file"].startswith("include/"):
+            continue
+        flow = None
+        for n in walk(f["body"]):
+            tgt = None
+            if n.get("k") == "call" and n.get("name") in SHRINK and n.get("obj") is not None and strip_casts(n["obj"]).get("q") == SAVES_Q:
+                tgt = n
+            elif n.get("k") == "call" and n.get("name") == "swap" and any(strip_casts(a).get("q") == SAVES_Q for a in n.get("args") or []):
+                tgt = n
+            elif n.get("k") == "assign" and strip_casts(n["lhs"]).get("q") == SAVES_Q:
+                tgt = n
+            if tgt is None:
+                continue
+            ident = "%s: %s" % (strip_targs(f["q"]), expr_str(prog, f, tgt)[:50])
+            if ident in seen10:
+                continue
+            seen10.add(ident)
+            nsites += 1
+            chk.touched([f])
+            flow = flow or FnFlow(f)
+            ok, why = False, "pending temporaries are dropped here although the call they were converted for may still be running"
+            if f["name"] == "take_saves":
+                rets = [r for r in walk(f["body"]) if r.get("k") == "return" and r.get("e") is not None]
+                swapped = [strip_casts(a) for a in tgt.get("args") or [] if strip_casts(a).get("q") != SAVES_Q]
+                ok = tgt.get("name") == "swap" and len(swapped) == 1 and swapped[0].get("rk") == "local" and all(any(x.get("vid") == swapped[0].get("vid") for x in walk(r["e"])) for r in rets) and bool(rets)
+                why = "take_saves must hand the temporaries to its caller (swap into the returned vector)"
+            elif f["kind"] == "dtor":
+                cls = f.get("cls")
+                ctors = [c for c in prog.fns if c.get("cls") == cls and c["kind"] == "ctor" and not c.get("implicit") and c["unit"] == f["unit"]]
+                flagf = None
+                for c in ctors:
+                    for i in c.get("inits", []):
+                        if any(x.get("k") == "member" and x.get("name") == "enabled" for x in walk(i.get("init") or {})):
+                            flagf = i.get("name") or i.get("field")
+                facts = [(expr_str(prog, f, cnd), t) for cnd, t in atomic_facts(flow, tgt)]
+                ok = flagf is not None and any(flagf in cnd and not t for cnd, t in facts)
+                why = "the guard clears the pending temporaries without having established that it enabled the saves itself (`!%s`): nested inside a running C++ call it destroys that call's converted arguments (facts: %s)" % (flagf, facts)
+            r10.ob(ident, ok, "%s:%d" % (f["file"], tgt["l"]), f["q"], why)
+    takes = [(f, n) for f in prog.fns if f["tk"] != "pattern" and f["file"].startswith("include/") for n in walk(f["body"]) if n.get("k") == "call" and n.get("name") == "take_saves"]
+    stored = 0
+    for f, n in takes:
+        par = FnFlow(f).parent(n)
+        hops = 0
+        while par is not None and par.get("k") not in ("call",) and hops < 6:
+            par = FnFlow(f).parent(par)
+            hops += 1
+        if par is not None and par.get("name") == "save_function_params":
+            stored += 1
+    r10.ob("every take_saves() result is put on a saved-argument list (%d call sites)" % len(takes), bool(takes) and stored == len({(f["q"], n["l"]) for f, n in takes}) or stored == len(takes), "", "", "take_saves result dropped at some call site")
+    r10.anchor(nsites >= 2, "sites that shrink Conversion_Saves::saves (found %d)" % nsites)
+    r10.require(3, "obligations")
 
     # ------------------------------------------------------------------ R11.8
     r8 = chk.rule("R11.8", "the evaluator's scope guard pushes a new saved-argument list only after the pending conversion temporaries were attached to the current one",
